@@ -22,6 +22,7 @@ ACCESS = ['IsRoot', 'Count', 'Back', 'Front']
 POINTER = ['IsRoot', 'Count', 'Back', 'Front', 'SplitFront', 'SplitAt', 'SplitBack', 'Parent', 'StripSuffix', 'StripPrefix',
            'EndsWith', 'StartsWith', 'Intersection']
 WALKS = ['ParseIndex', 'ResolveJson', 'ResolveMutJson', 'ResolveToml', 'ResolveMutToml']
+BUF = ['FromTokens', 'PushFront', 'PushBack', 'PopBack', 'Append', 'Clear']
 def _u(*ls):
     out = []
     for l in ls:
@@ -30,14 +31,15 @@ def _u(*ls):
     return out
 # which regenerated functions each property rests on, and the transported theorem modules
 PROP_FUNCS = {
-    'C01': _u(['ValidateBytes'], TOKEN, SLICE, POINTER),
+    'C01': _u(['ValidateBytes'], TOKEN, SLICE, POINTER, BUF),
+    'C11': _u(BUF, ['IsRoot']),
     'C02': ['ValidateBytes'], 'C14': ['ValidateBytes'],
     'C05': WALKS, 'C09': WALKS, 'C15': WALKS, 'C08': WALKS, 'C10': WALKS,
-    'C03': TOKEN, 'C04': ACCESS, 'C12': _u(SLICE, SPLITS), 'C13': RELS, 'C16': INDEX,
+    'C03': TOKEN, 'C04': _u(ACCESS, ['FromTokens']), 'C12': _u(SLICE, SPLITS), 'C13': _u(RELS, ['Append']), 'C16': INDEX,
     'C19': _u(TOKEN, SLICE, SPLITS, RELS, ACCESS),
 }
 TRANSPORT_MEMBERS = {'TransportValidate': ['ValidateBytes'], 'TransportToken': TOKEN, 'TransportSlice': SLICE, 'TransportIndex': INDEX,
-                     'TransportPointer': POINTER, 'TransportResolve': WALKS}
+                     'TransportPointer': POINTER, 'TransportResolve': WALKS, 'TransportBuf': BUF}
 TIE_THEOREMS = {
     'ValidateBytes': ['Jp.Tie.validate_bytes_eq', 'Jp.Tie.validate_bytes_nil'], 'FromEncoded': ['Jp.Tie.from_encoded_eq'],
     'TokenNew': ['Jp.Tie.new_eq'], 'Decoded': ['Jp.Tie.decoded_eq'], 'ForLen': ['Jp.Tie.for_len_eq'],
@@ -50,6 +52,8 @@ TIE_THEOREMS = {
     'Parent': ['Jp.Tie.parent_eq'], 'StripSuffix': ['Jp.Tie.strip_suffix_eq'], 'StripPrefix': ['Jp.Tie.strip_prefix_eq'],
     'EndsWith': ['Jp.Tie.ends_with_eq'], 'StartsWith': ['Jp.Tie.starts_with_eq'],
     'Intersection': ['Jp.Tie.intersection_eq', 'Jp.Tie.intersection_loop_eq'],
+    'FromTokens': ['Jp.Tie.from_tokens_eq'], 'PushFront': ['Jp.Tie.push_front_eq'], 'PushBack': ['Jp.Tie.push_back_eq'],
+    'PopBack': ['Jp.Tie.pop_back_eq'], 'Append': ['Jp.Tie.append_eq'], 'Clear': ['Jp.Tie.clear_eq'],
     'ParseIndex': ['Jp.Tie.parse_index_eq'], 'ResolveJson': ['Jp.Tie.resolve_json_eq', 'Jp.Tie.resolve_json_loop'],
     'ResolveMutJson': ['Jp.Tie.resolve_mut_json_eq'], 'ResolveToml': ['Jp.Tie.resolve_toml_eq'], 'ResolveMutToml': ['Jp.Tie.resolve_mut_toml_eq'],
 }
@@ -62,6 +66,7 @@ TRANSPORT_THEOREMS = {
     'TransportIndex': ['gen_for_len_exact', 'gen_for_len_incl_exact', 'gen_for_len_unchecked_exact'],
     'TransportPointer': ['gen_starts_with_iff', 'gen_strip_prefix_iff', 'gen_strip_suffix_iff', 'gen_ends_with_iff',
                          'gen_intersection_lcp', 'gen_intersection_comm', 'gen_split_at_iff', 'gen_split_at_concat'],
+    'TransportBuf': ['gen_buf_step_eq', 'gen_step_refines', 'gen_from_tokens_tokens', 'gen_append_tokens', 'gen_append_root'],
     'TransportResolve': ['gen_resolve_json', 'gen_resolve_mut_json', 'gen_resolve_toml', 'gen_resolve_mut_toml', 'gen_four_walks_agree',
                          'gen_resolve_eq_walk', 'gen_resolve_returns_node', 'gen_every_node_addressable', 'gen_resolve_no_panic'],
 }
